@@ -165,6 +165,7 @@ class MergeConsecutiveOp(BaseOp):
             remove_groups (list): List of names of columns to remove.
 
         """
+        df_new["duration"] = df_new["duration"].astype(float)
         remove_df = pd.DataFrame(remove_groups, columns=["remove"])
         max_groups = max(remove_groups)
         for index in range(max_groups):
